@@ -69,6 +69,14 @@ thread_local! {
     pub static ENV: RefCell<Env> = RefCell::new(Env::default());
 }
 
+/// run `f` under a default recording environment and restore the current one afterwards
+pub fn env_isolated<R>(f: impl FnOnce() -> R) -> R {
+    let saved = ENV.with(|e| std::mem::take(&mut *e.borrow_mut()));
+    let r = f();
+    ENV.with(|e| *e.borrow_mut() = saved);
+    r
+}
+
 pub fn env_reset() {
     ENV.with(|e| {
         let cb = e.borrow().on_callback;
